@@ -1,7 +1,9 @@
 """C17 CrossHair harness: PEP316 contracts over the real torchtree state_dict / load_state_dict code.
 
 Every `*_rt` function performs one checkpoint round trip (chk.c17_model.roundtrip) with *symbolic* counters,
-tuning values, window contents, flags and configuration selectors, and returns '' or the signature of the
+tuning values, window contents, flags, configuration selectors and adaptation-window bounds (`finite`, `ws`, `we`:
+the adaptors are built with the class defaults or with a finite window [ws, we], so the symbolic call counters lie
+before, inside or after it), and returns '' or the signature of the
 first problem found (load raised / read a key that was never written / a state field differs / state_dict
 differs after reload).  `crosshair check --report_all` must answer "Confirmed over all paths" for the
 property to count as held.  Every `*_twin` function has the same precondition and body but a post-condition
@@ -96,113 +98,117 @@ def LeapfrogIntegrator_twin(steps: int, step_size: float) -> str:
     return M.reached('LeapfrogIntegrator', (steps, step_size))
 
 
-def AdaptiveStepSize_rt(cc: int, accepted: int, use_rate: bool) -> str:
+def AdaptiveStepSize_rt(cc: int, accepted: int, use_rate: bool, finite: bool, ws: int, we: int) -> str:
     """
     post: __return__ == ''
     """
-    return M.first_problem('AdaptiveStepSize', (cc, accepted, use_rate))
+    return M.first_problem('AdaptiveStepSize', (cc, accepted, use_rate, finite, ws, we))
 
 
-def AdaptiveStepSize_twin(cc: int, accepted: int, use_rate: bool) -> str:
+def AdaptiveStepSize_twin(cc: int, accepted: int, use_rate: bool, finite: bool, ws: int, we: int) -> str:
     """
     post: __return__ != 'reached'
     """
-    return M.reached('AdaptiveStepSize', (cc, accepted, use_rate))
+    return M.reached('AdaptiveStepSize', (cc, accepted, use_rate, finite, ws, we))
 
 
-def DualAveragingStepSize_rt(cc: int, cnt: int, xkind: int, f: float) -> str:
+def DualAveragingStepSize_rt(cc: int, cnt: int, xkind: int, f: float, finite: bool, ws: int, we: int) -> str:
     """
     pre: 0 <= xkind <= 2
     post: __return__ == ''
     """
-    return M.first_problem('DualAveragingStepSize', (cc, cnt, xkind, f))
+    return M.first_problem('DualAveragingStepSize', (cc, cnt, xkind, f, finite, ws, we))
 
 
-def DualAveragingStepSize_twin(cc: int, cnt: int, xkind: int, f: float) -> str:
+def DualAveragingStepSize_twin(cc: int, cnt: int, xkind: int, f: float, finite: bool, ws: int, we: int) -> str:
     """
     pre: 0 <= xkind <= 2
     post: __return__ != 'reached'
     """
-    return M.reached('DualAveragingStepSize', (cc, cnt, xkind, f))
+    return M.reached('DualAveragingStepSize', (cc, cnt, xkind, f, finite, ws, we))
 
 
-def MassMatrixAdaptor_rt(cc: int, samples: int, diag: bool, mode: int, nvals: int, samples2: int) -> str:
+def MassMatrixAdaptor_rt(cc: int, samples: int, diag: bool, mode: int, nvals: int, samples2: int,
+                         finite: bool, ws: int, we: int) -> str:
     """
     pre: 0 <= mode <= 2 and 0 <= nvals <= 2
     post: __return__ == ''
     """
-    return M.first_problem('MassMatrixAdaptor', (cc, samples, diag, mode, nvals, samples2))
+    return M.first_problem('MassMatrixAdaptor', (cc, samples, diag, mode, nvals, samples2, finite, ws, we))
 
 
-def MassMatrixAdaptor_twin(cc: int, samples: int, diag: bool, mode: int, nvals: int, samples2: int) -> str:
+def MassMatrixAdaptor_twin(cc: int, samples: int, diag: bool, mode: int, nvals: int, samples2: int,
+                         finite: bool, ws: int, we: int) -> str:
     """
     pre: 0 <= mode <= 2 and 0 <= nvals <= 2
     post: __return__ != 'reached'
     """
-    return M.reached('MassMatrixAdaptor', (cc, samples, diag, mode, nvals, samples2))
+    return M.reached('MassMatrixAdaptor', (cc, samples, diag, mode, nvals, samples2, finite, ws, we))
 
 
 # ------------------------------------------------------------- HMC operator with every adaptor combination
 def HMCOperator_diag_rt(has_ass: bool, has_da: bool, has_mma: bool, adapt: int, acc: int, rej: int, w0: int,
                    nw: int, steps: int, snum: int, cc1: int, accd: int, cc2: int, cnt: int, cc3: int,
-                   samples: int) -> str:
+                   samples: int, finite: bool, ws: int, we: int) -> str:
     """
     pre: 0 <= nw <= 1
     post: __return__ == ''
     """
     return M.first_problem('HMCOperator[diag]', (has_ass, has_da, has_mma, adapt, acc, rej, w0, nw, steps, snum,
-                    cc1, accd, cc2, cnt, cc3, samples))
+                    cc1, accd, cc2, cnt, cc3, samples, finite, ws, we))
 
 
 def HMCOperator_diag_twin(has_ass: bool, has_da: bool, has_mma: bool, adapt: int, acc: int, rej: int, w0: int,
                    nw: int, steps: int, snum: int, cc1: int, accd: int, cc2: int, cnt: int, cc3: int,
-                   samples: int) -> str:
+                   samples: int, finite: bool, ws: int, we: int) -> str:
     """
     pre: 0 <= nw <= 1
     post: __return__ != 'reached'
     """
     return M.reached('HMCOperator[diag]', (has_ass, has_da, has_mma, adapt, acc, rej, w0, nw, steps, snum,
-                    cc1, accd, cc2, cnt, cc3, samples))
+                    cc1, accd, cc2, cnt, cc3, samples, finite, ws, we))
 
 
 def HMCOperator_dense_rt(has_ass: bool, has_da: bool, has_mma: bool, adapt: int, acc: int, rej: int, w0: int,
                    nw: int, steps: int, snum: int, cc1: int, accd: int, cc2: int, cnt: int, cc3: int,
-                   samples: int) -> str:
+                   samples: int, finite: bool, ws: int, we: int) -> str:
     """
     pre: 0 <= nw <= 1
     post: __return__ == ''
     """
     return M.first_problem('HMCOperator[dense]', (has_ass, has_da, has_mma, adapt, acc, rej, w0, nw, steps, snum,
-                    cc1, accd, cc2, cnt, cc3, samples))
+                    cc1, accd, cc2, cnt, cc3, samples, finite, ws, we))
 
 
 def HMCOperator_dense_twin(has_ass: bool, has_da: bool, has_mma: bool, adapt: int, acc: int, rej: int, w0: int,
                    nw: int, steps: int, snum: int, cc1: int, accd: int, cc2: int, cnt: int, cc3: int,
-                   samples: int) -> str:
+                   samples: int, finite: bool, ws: int, we: int) -> str:
     """
     pre: 0 <= nw <= 1
     post: __return__ != 'reached'
     """
     return M.reached('HMCOperator[dense]', (has_ass, has_da, has_mma, adapt, acc, rej, w0, nw, steps, snum,
-                    cc1, accd, cc2, cnt, cc3, samples))
+                    cc1, accd, cc2, cnt, cc3, samples, finite, ws, we))
 
 
 # ------------------------------------- MCMC over Scaler + SlidingWindow + Dirichlet + GMRF block (+ HMC) operators
 def MCMC_rt(epoch: int, with_hmc: bool, tnum: int, adapt: int, acc: int, rej: int, w0: int, w1: int, w2: int,
-            nw: int, steps: int, snum: int, cc1: int, accd: int, cc2: int, cnt: int, cc3: int, samples: int) -> str:
+            nw: int, steps: int, snum: int, cc1: int, accd: int, cc2: int, cnt: int, cc3: int, samples: int,
+            finite: bool, ws: int, we: int) -> str:
     """
     pre: 0 <= nw <= 3
     post: __return__ == ''
     """
     return M.first_problem('MCMC', (epoch, with_hmc, tnum, adapt, acc, rej, w0, w1, w2, nw, steps, snum,
-                                    cc1, accd, cc2, cnt, cc3, samples))
+                                    cc1, accd, cc2, cnt, cc3, samples, finite, ws, we))
 
 
 def MCMC_twin(epoch: int, with_hmc: bool, tnum: int, adapt: int, acc: int, rej: int, w0: int, w1: int, w2: int,
-              nw: int, steps: int, snum: int, cc1: int, accd: int, cc2: int, cnt: int, cc3: int, samples: int) -> str:
+              nw: int, steps: int, snum: int, cc1: int, accd: int, cc2: int, cnt: int, cc3: int, samples: int,
+            finite: bool, ws: int, we: int) -> str:
     """
     pre: 0 <= nw <= 3
     post: __return__ != 'reached'
     """
     return M.reached('MCMC', (epoch, with_hmc, tnum, adapt, acc, rej, w0, w1, w2, nw, steps, snum,
-                              cc1, accd, cc2, cnt, cc3, samples))
+                              cc1, accd, cc2, cnt, cc3, samples, finite, ws, we))
